@@ -61,6 +61,12 @@ CHECKS = {
  "C20": ("property-based testing (rapid) with probe block/inline parsers, paragraph/AST transformers and node renderers of generated priorities, behaviours and registration channels/orders; oracle: priority-sorted reference dispatch (log and output) and equality with the canonical sorted registration; trees with kinds nobody renders / created after renderer initialisation",
          "Generated registrations against a reference dispatcher written from the documented priority rules; a self-test pins the assumptions about built-in priorities.",
          "Trusted: the reference dispatcher in checks/c20; built-in priorities as documented."),
+ "C02": ("property-based testing (rapid): constructed-document model with reference renderer and spelling-choosing serialiser; exhaustive enumeration of the 652 spec examples x licensed rewrites against spec.json; delimiter soup against a reference implementation of the spec's delimiter-run algorithm (validated on 103 spec examples at start-up)",
+         "Three independent oracles, none of which asks goldmark: spec.json's expected HTML for rewritten examples (exhaustive), HTML known by construction for generated document models under any choice of equivalent spellings, and a reference emphasis algorithm for delimiter soup. Comparison modulo whitespace next to block tags (the slack of the spec's own comparison).",
+         "Trusted: the document model, reference renderer and serialiser (checks/c02/model,gen,ser), the reference emphasis algorithm (self-tested against spec.json), spec.json itself. The serialiser only emits spellings whose meaning is fixed by construction."),
+ "C07": ("generated concurrent workloads (rapid) on fresh shared instances under the Go race detector (-race, GORACE=halt_on_error) with GOMAXPROCS variation and injected runtime.Gosched yields; per-goroutine output equality with the sequential output; fresh-process first-use cases by re-executing the test binary",
+         "Generated workloads (2..16 goroutines x 1..6 actions over a document pool covering every node kind) explored under the race detector, which reports unsynchronised conflicting accesses on executed paths irrespective of timing; any report halts the shard and the running workload is the replay.",
+         "Trusted: the Go race detector; harness-owned probes are internally synchronised. A logical race that is fully mutex-protected yet order-dependent would only show as an output mismatch."),
 }
 
 NOT_YET = "check not built yet in this session; planned (see DESIGN.md)"
